@@ -338,6 +338,9 @@ def select_cases(cases: list[dict[str, Any]], tier: str, seed: int) -> tuple[lis
         if (cs["c"]["kind"] == "Script" and cs["c"]["art"] and cs["c"]["how"] != "CtrlC" and cs["id"] % 3 == 1
                 and cs["c"]["point"] in ("Main", "Teardown", "PostHook", "DbClose")):
             cs["nested"] = True   # main() runs a second command (own artifacts dir, own log) like `script rerun`
+        if (cs["c"]["kind"] == "UDSScanner" and cs["c"]["point"] == "Teardown" and cs["c"]["where"] == "pre"
+                and cs["c"]["how"] in ("ExpConn", "ExpUds") and cs["id"] % 2 == 0):
+            cs["flavour"] = "inner-double"   # two expected errors inside UDSScanner.teardown() itself
         if cs["c"]["how"] == "DbFails" and cs["c"]["point"] == "DbOpen":
             cs["dbfail"] = ("blocked", "not-sqlite", "other-version")[cs["id"] % 3]
     if tier == "thorough":
